@@ -138,6 +138,12 @@ class CompGen:
         dims = [c.choice([2, 3, 4])] if c.random() < P["p_list"] else []
         self.signals.append({"name": "%s%d" % (pre, j), "kind": kind, "type": self.pick_type(),
                              "dims": dims})
+    # a Bits wire exactly as wide as a struct-typed signal of this component: the target of a
+    # struct -> Bits assignment (the packed value of the whole struct)
+    stsigs = [sg for sg in self.signals if isinstance(sg["type"], str)]
+    if stsigs and c.random() < 0.35:
+      sg = c.choice(stsigs)
+      self.signals.append({"name": "wpk0", "kind": "wire", "type": tbits(self.spec, sg["type"]), "dims": []})
     # make sure an index-capable input exists sometimes
     for j, cls in enumerate(self.child_classes):
       dims = [c.choice([2, 3])] if c.random() < P["p_list"] else []
@@ -563,6 +569,12 @@ class CompGen:
         e = self.value_expr(t, P["expr_depth"], env)
         if e is None:
           return None
+        if isinstance(t, int) and path[-1][0] in ("a", "i") and \
+           c.random() < (0.7 if path[0][1].startswith("wpk") else P.get("p_struct_as_bits", 0.2)):
+          # a whole struct signal assigned to a Bits signal of the same width (its packed value)
+          packed = [a for a in self.atoms if a.w == t and isinstance(a.t, str) and a.path[-1][0] in ("a", "i")]
+          if packed:
+            e = ["rd", c.choice(packed).path, t]
         stmts.append(["assign", path, e])
       own_driven.append((path, t))
       # whole target first, then one piece of it (one or two levels down) again in the same block:
@@ -1016,7 +1028,7 @@ class DesignGen:
       pool = ["f0", "f1", "f2", "f3"] if c.random() < 0.4 else c.sample(["f0", "f1", "f2", "f3", "a", "zz", "m", "d9", "b"], 4)
       for j in range(c.randint(2, 4)):
         r = c.random()
-        if r < 0.2 and i > 0:
+        if r < 0.3 and i > 0:
           ft = "S%d" % c.randrange(i)
         elif r < 0.35:
           ft = ["arr", c.choice([1, 3, 4, 8]), c.choice([2, 3])]
